@@ -82,7 +82,8 @@ type tr struct {
 	funcRet   func(string) string // how a `return e` is rendered at function level
 	loopVars  []string            // non-nil inside a loop body: state tuple of the loop
 	inLoop    bool
-	loopPush  string // inside a MutRange loop body: the range variable pushed onto the rebuilt slice at every `next`
+	closures  map[string]bool // local closures declared so far (`f := func…`)
+	loopPush  string          // inside a MutRange loop body: the range variable pushed onto the rebuilt slice at every `next`
 }
 
 func (x *tr) isSet(e ast.Expr) bool {
@@ -294,6 +295,11 @@ func (x *tr) call(c *ast.CallExpr) string {
 				fn, ok = m, true
 				args = append(args, x.expr(sel.X))
 			}
+		}
+	}
+	if !ok {
+		if id, isID := c.Fun.(*ast.Ident); isID && x.closures[id.Name] {
+			fn, ok = x.ident(id.Name), true
 		}
 	}
 	if !ok {
@@ -563,6 +569,32 @@ func (x *tr) stmts(list []ast.Stmt, fall string, ind string) string {
 			}
 		}
 		if len(v.Lhs) == 1 && len(v.Rhs) == 1 {
+			if fl, ok := v.Rhs[0].(*ast.FuncLit); ok && v.Tok == token.DEFINE {
+				// `f := func(a, b T) R { … }`: a local closure without effects; a `return` inside leaves the closure only
+				id, isID := v.Lhs[0].(*ast.Ident)
+				if !isID {
+					return x.errf("assignment %s", x.src(v))
+				}
+				if x.closures == nil {
+					x.closures = map[string]bool{}
+				}
+				x.closures[id.Name] = true
+				var params []string
+				for _, f := range fl.Type.Params.List {
+					for _, n := range f.Names {
+						params = append(params, x.ident(n.Name))
+					}
+				}
+				if len(params) == 0 {
+					params = []string{"_"}
+				}
+				saveW, saveL, saveV, saveP, saveD, saveJ := x.retWrap, x.inLoop, x.loopVars, x.loopPush, x.defers, x.joinDepth
+				x.retWrap = func(v string) string { return v }
+				x.inLoop, x.loopVars, x.loopPush, x.defers, x.joinDepth = false, nil, "", nil, 1
+				body := x.stmts(fl.Body.List, "()", ind+"    ")
+				x.retWrap, x.inLoop, x.loopVars, x.loopPush, x.defers, x.joinDepth = saveW, saveL, saveV, saveP, saveD, saveJ
+				return "let " + x.ident(id.Name) + " := (fun " + strings.Join(params, " ") + " =>\n" + ind + "    " + body + ")\n" + ind + next()
+			}
 			if cl, ok := v.Rhs[0].(*ast.CompositeLit); ok && x.isSet(v.Lhs[0]) && len(cl.Elts) == 0 {
 				// `s := map[K]struct{}{}`
 				return "let " + x.ident(v.Lhs[0].(*ast.Ident).Name) + " := GoLib.setEmpty\n" + ind + next()
